@@ -205,3 +205,34 @@ Example C02_put_examples :
   /\ o_text (put true 1 (run_lines OpYank [] (T "a" ++ [10] ++ T "b") 1 0)) = T "a" ++ [10] ++ T "a" ++ [10] ++ T "b"
   /\ o_text (put true 3 (run_op OpYank [] (T "ab") MRight 1 0)) = T "aaaab".
 Proof. vm_compute. repeat split. Qed.
+
+(** (13) The cursor [d] leaves is a normal-mode cursor: inside the text, and behind the last character of its line only
+    when that line is empty (for every text, range and register state). *)
+Theorem C02_delete_cursor_settled :
+  forall (ins : text) (s : ostate) (lo0 hi0 : nat),
+    let s' := apply_op OpDelete ins s (RChar lo0 hi0) in
+    (o_cur s' <= length (o_text s'))%nat /\
+    (o_cur s' = line_end (o_text s') (o_cur s') -> line_start_from (o_text s') (o_cur s') = o_cur s').
+Proof. exact delete_char_cursor_settled. Qed.
+Print Assumptions C02_delete_cursor_settled.
+
+(** (14) The word text objects iw aw iW aW (Vim's [current_word], count 1): the object is characterwise and starts at or
+    before the cursor; with the operator theorems above it follows that d / y / c over it touch one stretch that starts
+    no later than the cursor. (The check compares the model with Vim on every text object case it runs.) *)
+Theorem C02_word_object_starts_before_cursor :
+  forall (big include : bool) (t : text) (i : nat),
+    match word_object big include t i with
+    | RChar a _ => (a <= i)%nat
+    | RLines _ _ _ => False
+    | _ => True
+    end.
+Proof. exact word_object_starts_before_cursor. Qed.
+Print Assumptions C02_word_object_starts_before_cursor.
+
+(** diw on a word takes the word, daw the word and the blanks behind it - or in front of it at the end of a line *)
+Example C02_word_object_examples :
+  word_object false false (T "ab cd ef") 4 = RChar 3 5
+  /\ word_object false true (T "ab cd ef") 4 = RChar 3 6
+  /\ word_object false true (T "ab cd") 4 = RChar 2 5
+  /\ word_object false false (T "ab  cd") 2 = RChar 2 4.
+Proof. vm_compute. repeat split. Qed.
